@@ -15,6 +15,9 @@ real bytes; the real bytes travel in `meta` and are what the implementation side
   xr      : the xr package reading the file: real `\\externaldocument[prefix]{job}[url]`; observation = context.labels;
             property: no exception escapes (every truncation point, bit flips, foreign pickles), nothing invented
   xrrt    : persist, then xr: every saved label is there under prefix+label with its saved record (url option prepended)
+  url     : the real `Renderable.url` property (where the saved target location comes from) on ONE node object through 1-3
+            successive renders whose file tables / base urls differ; property: the answer in each render is the answer
+            that render gives on its own (nothing is carried from one render to the next)
   raw     : files whose loaded value has no shape in the model (aliasing, exotic keys, surrogates): property only
 Every real call happens while another, long-lived context of the same process holds labels of its own (a build script
 converting several documents): none of them may appear in what is saved or restored ("the same set": the third driver
@@ -37,7 +40,8 @@ LEVEL_TEXT = ('Lean 4 theorems over a line-by-line model of Context.persist/rest
               'labels_survive (the statement in the vocabulary number/title/target), persist_invents_nothing / roundtrip_invents_nothing (the same '
               'set: no label that the run did not save and the old file did not hold), and for the xr package (second reader of the file) '
               'xr_unreadable_is_noop, xrR_roundtrip, xrR_invents_nothing, xr_roundtrip_partial with the kernel-checked counterexample '
-              'xr_mixes_renderers_counterexample (known finding). The attribute tables (refAttributes, remap, setters, '
+              'xr_mixes_renderers_counterexample (known finding), and for the source of the saved target (Renderable.url) target_is_of_this_render, '
+              'target_names_a_file_of_this_render, enclosingFile_mem. The attribute tables (refAttributes, remap, setters, '
               'read-only names) are regenerated from the live classes on every run; the model is tied to the code by differential execution '
               'on real files: every truncation point of every generated file, random 1-8 bit flips, foreign pickles of every value shape, '
               'empty/missing files and save/damage/restore histories across renderers. Template lookup of the restored node (\\ref -> href) '
@@ -843,6 +847,8 @@ def generate(ctx):
         yield from mk_cases(['restore', 'persist', 'rt', 'xr', 'xrrt'], 'HTML5', gen_src(rng, 2, 0.0), g, tag='garbage', xr=gen_xr(rng))
     for _ in range(nhist):
         yield from gen_history(rng)
+    for _ in range(400 if quick else 4000):
+        yield gen_url_case(rng)
 
 
 def _plain(v):
@@ -868,6 +874,8 @@ def corpus():
     for v in ({'HTML5': {'a': {'ref': '1'}}}, {'HTML5': {'a': {'url': 5}, 'b': {'url': 'b.html'}}}):
         out += mk_cases(['xr'], 'HTML5', None, _plain(v), 'corpus', 'D29', xr=('P-', 'http://x.org/m'))
     out += mk_cases(['xrrt'], 'HTML5', src, _plain({'HTML5': {'x': 5}, 'XHTML': 7}), 'corpus', 'D29', xr=('P-', 'http://x.org/m/'))
+    out.append(url_case('eq:1', None, [[None, None, [None, 'sec-a.html', 'index.html']], [None, None, [None, 'sec-a.txt', 'index.txt']]], 'corpus'))
+    out.append(url_case('eq:1', None, [['http://x.org/d/', None, ['index.html']], ['', 'eq-1.html', ['index.html']], [None, '', []]], 'corpus'))
     import glob
     from framework import VERIF
     for f in sorted(glob.glob(os.path.join(VERIF, 'corpus', ID, '*.json'))):
@@ -889,6 +897,64 @@ def nontrivial(o):
 
 # ---------------------------------------------------------------- implementation side
 
+# ---------------------------------------------------------------- `url` stream: Renderable.url over successive renders
+
+URL_BASES = [None, None, '', 'http://x.org/d', 'http://x.org/d/', 'b//', '/']
+URL_FILES = ['index.html', 'sec-a.html', 'sec-a.txt', 'a b.xml', 'é.html']
+
+
+def gen_url_case(rng, origin='gen'):
+    """one labelled node, 1-3 renders of the same document object: between the renders the renderer (file names), the
+    split level (which ancestors create files, whether the node itself does) and the base url change"""
+    depth = rng.randint(0, 4)
+    views = []
+    for _ in range(rng.choice([1, 2, 2, 3])):
+        own = rng.choice([None, None, None, '', rng.choice(URL_FILES)])
+        anc = [rng.choice([None, None, rng.choice(URL_FILES)]) if rng.random() < 0.95 else '' for _ in range(depth)]
+        views.append([rng.choice(URL_BASES), own, anc])
+    nid = rng.choice(['eq:1', 'sec:intro', 'a b', 'é', 'fig-2'])
+    ov = None if rng.random() < 0.85 else rng.choice(['other.html#x', ''])
+    return url_case(nid, ov, views, origin)
+
+
+def _w(x):
+    return 'N' if x is None else 's' + cps(x)
+
+
+def url_case(nid, ov, views, origin='gen'):
+    words = [_w(nid), _w(ov)]
+    for base, own, anc in views:
+        words += ['R', _w(base), _w(own), str(len(anc))] + [_w(a) for a in anc]
+    return Case('url', ' '.join(words), {'id': nid, 'ov': ov, 'views': views, 'r': '-'}, origin)
+
+
+def real_urls(nid, ov, views):
+    """the real `Renderable.url` property on one node object whose surroundings change from render to render"""
+    from plasTeX.Renderers import Renderable
+
+    class N(Renderable):
+        filename = None            # plain attributes in place of the renderer's file table lookup
+        parentNode = None
+        config = None
+        id = None
+    cfg = {'document': {'base-url': None}}
+    node = N()
+    node.id, node.config = nid, cfg
+    if ov is not None:
+        node.urloverride = ov
+    out = []
+    for base, own, anc in views:
+        cfg['document']['base-url'] = base
+        node.filename = own
+        parent, chain = None, []
+        for a in reversed(anc):              # a fresh ancestor chain per render, innermost first in `anc`
+            p = N(); p.id, p.config, p.filename, p.parentNode = 'anc', cfg, a, parent
+            parent = p
+        node.parentNode = parent
+        out.append(str(node.url))
+    return out
+
+
 def run_hist(sb, meta):
     """re-run a history on the real code; returns 'err:…' as soon as a step raises, else None"""
     sb.put(unb64(meta['file']))
@@ -906,6 +972,12 @@ def impl(case, aux):
     sb = sandbox()
     m = case.meta
     stream = m.get('op') if case.stream == 'raw' else case.stream
+    if stream == 'url':
+        try:
+            us = real_urls(m['id'], m['ov'], m['views'])
+        except Exception as e:
+            return canon_exc(e)
+        return ' '.join('s' + cps(u) for u in us) if us else 'none'
     try:
         if stream == 'hist':
             err = run_hist(sb, m)
@@ -995,6 +1067,11 @@ def judge(o):
         o.prop_ok = o.impl.startswith('ok') and cps('decoy:') not in o.impl
         if o.prop_ok and o.case.meta.get('op') in ('rt', 'persist') and o.impl != 'ok exotic':
             o.prop_ok = raw_complete(o)
+        return
+    if s == 'url':
+        o.corr_ok = (o.impl == o.model)
+        o.prop_ok = (o.impl == o.spec)
+        o.note = '' if o.prop_ok else 'the target a node gives in one render differs from what it gives when that render is the only one'
         return
     o.corr_ok = (o.impl == o.model)
     why = prop_holds(s, o.impl, o.spec, o.case.meta['r'], allowed_keys(o.aux))
@@ -1274,6 +1351,110 @@ def gen_doc_scenario(rng):
     return {'labels': labels, 'renderers': rs, 'damage': [kind, arg], 'names': names, 'xr': xr, 'seed': rng.randrange(1 << 30)}
 
 
+# ---------------------------------------------------------------- one document object, several renders
+
+MULTI_RENDERERS = ['HTML5', 'XHTML', 'Text', 'DocBook', 'HTML5']
+
+
+def _doc_source(labels):
+    body = []
+    for kind, lab, title in labels:
+        if kind == 'section': body.append('\\section{%s}\\label{%s}\nText.' % (title, lab))
+        elif kind == 'subsection': body.append('\\subsection{%s}\\label{%s}\nText.' % (title, lab))
+        elif kind == 'equation': body.append('\\begin{equation}x=1\\label{%s}\\end{equation}' % lab)
+        else: body.append('\\begin{figure}\\caption{%s}\\label{%s}\\end{figure}' % (title, lab))
+    return '\\documentclass{article}\n\\begin{document}\n%s\n\\end{document}\n' % '\n'.join(body)
+
+
+def render_sequence(work, source, steps):
+    """parse a.tex once in `work`, then render the SAME document object once per step (renderer, split-level, base-url),
+    each into its own directory; returns (a.paux as loaded after each step, exception or None)"""
+    from plasTeX.Compile import parse, load_renderer
+    from plasTeX.Config import defaultConfig
+    os.makedirs(work)
+    open(os.path.join(work, 'a.tex'), 'w', encoding='utf-8').write(source)
+    snaps = []
+    with _quiet_cwd(work), guarded():
+        try:
+            config = defaultConfig()
+            config['general']['renderer'] = steps[0][0]
+            config['general']['copy-theme-extras'] = False
+            config['images']['imager'] = 'none'
+            config['images']['vector-imager'] = 'none'
+            config['files']['log'] = False
+            document = parse('a.tex', config).ownerDocument
+            for i, (rname, split, base) in enumerate(steps):
+                config['general']['renderer'] = rname
+                config['files']['split-level'] = split
+                config['document']['base-url'] = base
+                out = os.path.join(work, 'out-%d' % i)
+                os.makedirs(out)
+                os.chdir(out)
+                load_renderer(rname, config).render(document)
+                os.chdir(work)
+                snaps.append(pickle.load(open(os.path.join(work, 'a.paux'), 'rb')))
+        except Exception as e:
+            return snaps, e
+    return snaps, None
+
+
+def multi_scenario(sc):
+    """sc: {'kind': 'multi', 'labels': [...], 'steps': [[renderer, split-level, base-url]...]}.
+    "Separately per renderer": what the k-th render of one document object saves under its renderer is what that
+    renderer saves when it renders the document on its own with the same settings (same labels, numbers, titles, target
+    locations), the sections of the other renderers stay as they were, and every saved target names a file this render wrote."""
+    fails = []
+    top = tempfile.mkdtemp(prefix='c20multi-')
+    try:
+        source = _doc_source(sc['labels'])
+        steps = [tuple(x) for x in sc['steps']]
+        snaps, e = render_sequence(os.path.join(top, 'both'), source, steps)
+        if e is not None:
+            return ['rendering one document %d times failed at step %d: %r' % (len(steps), len(snaps), e)]
+        for i, (rname, split, base) in enumerate(steps):
+            alone, e = render_sequence(os.path.join(top, 'only-%d' % i), source, [steps[i]])
+            if e is not None:
+                return ['rendering the document alone with %r failed: %r' % (steps[i], e)]
+            want = alone[0].get(rname)
+            got = snaps[i].get(rname) if isinstance(snaps[i], dict) else None
+            if got != want:
+                bad = sorted(k for k in set(want or {}) | set(got or {}) if (got or {}).get(k) != (want or {}).get(k))
+                k = bad[0] if bad else None
+                fails.append('render %d (%s, split-level %s) of the same document saved %r for label %r; %s on its own saves %r' % (
+                    i, rname, split, (got or {}).get(k), k, rname, (want or {}).get(k)))
+            if i > 0 and isinstance(snaps[i], dict) and isinstance(snaps[i - 1], dict):
+                for r2, sec in snaps[i - 1].items():
+                    if r2 != rname and snaps[i].get(r2) != sec:
+                        fails.append('render %d under %s changed the saved section of %s' % (i, rname, r2))
+            # (DocBook and S5 name a file of its own for every labelled node and write only one: observation, not judged here)
+            for k, rec in sorted((got or {}).items()) if rname in ('HTML5', 'XHTML', 'Text') else []:
+                url = str(rec.get('url') or '')
+                if base:
+                    if not url.startswith(base.rstrip('/') + '/'):
+                        fails.append('render %d (%s): target %r of %r lacks the base url %r' % (i, rname, url, k, base))
+                    url = url[len(base.rstrip('/')) + 1:]
+                target = url.split('#')[0]
+                if not os.path.isfile(os.path.join(top, 'both', 'out-%d' % i, target)):
+                    fails.append('render %d (%s): the saved target %r of label %r is not a file this render wrote' % (i, rname, rec.get('url'), k))
+        return fails
+    finally:
+        shutil.rmtree(top, ignore_errors=True)
+
+
+def gen_multi_scenario(rng):
+    labels, used = [], set()
+    for _ in range(rng.randint(2, 6)):
+        kind = rng.choice(['section', 'subsection', 'equation', 'equation', 'figure'])
+        lab = rng.choice(['sec', 'eq', 'fig']) + rng.choice([':', '-']) + rng.choice(['intro', 'one', 'main', 'a', 'b2', 'xy'])
+        if lab in used: continue
+        used.add(lab)
+        labels.append([kind, lab, rng.choice(['Intro', 'Main result', 'A \\& B', 'Two words'])])
+    steps = []
+    for _ in range(rng.choice([2, 2, 3])):
+        steps.append([rng.choice(MULTI_RENDERERS), rng.choice([-10, 0, 1, 2, 2, 3]), rng.choice(['', '', '', 'http://example.org/doc', 'https://h.example/a/'])])
+    return {'kind': 'multi', 'labels': labels, 'steps': steps}
+
+
 def extra_checks(ctx):
     n = 8 if ctx.tier == 'quick' else 40
     viol, samples, nontriv = [], [], 0
@@ -1291,9 +1472,28 @@ def extra_checks(ctx):
         if fails:
             viol.append(Violation('document level: ' + fails[0], {'kind': 'failing-input', 'extra': sc, 'failures': fails}))
             break
-    return viol, {'evaluations': n, 'distinct_nontrivial': nontriv, 'samples': samples,
-                  'what': 'a.tex rendered (split files), a.paux damaged, b.tex (\\ref to every label of a.tex) rendered, a.tex re-rendered'}
+    # one parsed document rendered several times (renderers / file settings change between the renders)
+    m = 5 if ctx.tier == 'quick' else 30
+    for i in range(m if not viol else 0):
+        sc = gen_multi_scenario(ctx.rng)
+        if i == 0:
+            sc['steps'] = [['HTML5', 2, ''], ['Text', 2, '']]
+            if not any(k in ('equation', 'figure') for k, _, _ in sc['labels']):
+                sc['labels'].append(['equation', 'eq:always', 'x'])
+        fails = multi_scenario(sc)
+        ctx.count('doc-multi-render:%d' % len(sc['steps']))
+        nontriv += 1
+        if i < 1:
+            samples.append({'scenario': sc, 'failures': fails})
+        if fails:
+            viol.append(Violation('document level: ' + fails[0], {'kind': 'failing-input', 'extra': sc, 'failures': fails}))
+            break
+    return viol, {'evaluations': n + m, 'distinct_nontrivial': nontriv, 'samples': samples,
+                  'what': 'a.tex rendered (split files), a.paux damaged, b.tex (\\ref to every label of a.tex) rendered, a.tex re-rendered; '
+                          'one parsed document rendered 2-3 times under changing renderers / split levels / base urls and compared with each render on its own'}
 
 
 def replay_extra(ctx, extra):
+    if extra.get('kind') == 'multi':
+        return bool(multi_scenario(extra))
     return bool(doc_scenario(extra))
